@@ -215,10 +215,10 @@ EXPORT char *_stpncpy_s_chk(char *restrict dest, rsize_t dmax,
             if (*dest == '\0')
                 goto eok;
             dmax--;
-            slen++;
+            slen--;
             dest++;
             src++;
-            if (unlikely(slen >= srcbos)) {
+            if (unlikely(slen > 0 && (size_t)(orig_dmax - dmax) >= srcbos)) {
                 invoke_safe_str_constraint_handler("stpncpy_s: src unterminated",
                                                    (void *)src, ESUNTERM);
                 *errp = RCNEGATE(ESUNTERM);
@@ -249,6 +249,8 @@ EXPORT char *_stpncpy_s_chk(char *restrict dest, rsize_t dmax,
             *dest = *src;
             if (*dest == '\0') {
               eok:
+                /* the result is the address of the terminator */
+                orig_dest = dest;
 #ifdef SAFECLIB_STR_NULL_SLACK
                 /* null slack to clear any data */
                 if (dmax > 0x20)
@@ -260,16 +262,18 @@ EXPORT char *_stpncpy_s_chk(char *restrict dest, rsize_t dmax,
                         dest++;
                     }
                 }
+#else
+                *dest = '\0';
 #endif
                 *errp = RCNEGATE(EOK);
-                return dest;
+                return orig_dest;
             }
 
             dmax--;
-            slen++;
+            slen--;
             dest++;
             src++;
-            if (unlikely(slen >= srcbos)) {
+            if (unlikely(slen > 0 && (size_t)(orig_dmax - dmax) >= srcbos)) {
                 invoke_safe_str_constraint_handler("stpncpy_s: src unterminated",
                                                    (void *)src, ESUNTERM);
                 *errp = RCNEGATE(ESUNTERM);
